@@ -44,14 +44,21 @@ theorem circuit_reclaimed_within_bound (c : Cfg) (hp : 0 < c.period) (start : Na
   exact ⟨fun hg => BoundC.now_lt h.time hs (hr hg), Bound.now_lt h.time hs ha⟩
 
 /-- **relay_early budget**: over one relay route, the number of forwarded cells that carried the relay_early flag plus
-    the initial count (the extend that created the route) never exceeds `max_relay_early`. -/
+    the initial count (the extend that created the route) never exceeds `max_relay_early`.
+    `fwdEarly` is incremented by `Entry.fwd`, which `Node.onCell` applies (to the entry `get` returned, `modify1`) in
+    the same branch that appends the `Out.fwd` record, and only there; `Entry.fwd` does not test anything itself, so the
+    proof rests on the guard `Gen.earlyDrop` of `Node.onCell` (generated from `relay_cell`): without the guard
+    `Inv.onCell` does not go through.  Per live route entry (a route replaced by a later `created` starts afresh). -/
 theorem relay_early_budget (c : Cfg) (hp : 0 < c.period) (start : Nat) (evs : List (Nat × Ev))
     (i : Nat) (e : Entry) (hm : (i, e) ∈ (reach c start evs).relays) (hl : e.gone = false) :
     e.fwdEarly = 0 ∨ e.fwdEarly + Gen.earlyInit ≤ c.maxEarly := by
   have h := (Inv.init c hp start).run hp evs
   exact (h.relay (i, e) hm hl).2.2.2
 
-/-- **Exit sockets are closed when dropped, and never replaced.**  In every reachable state an exit socket that has
+/-- (The closing decision is the generated `Gen.closeOnPop` — `remove_exit_socket`'s test on the object it pops —
+    through the obligation `closeOnPop_enabled`; whether `TunnelExitSocket.close()` then really closes both OS
+    sockets is outside the model and checked by the harness on the loop's own transport objects.)
+    **Exit sockets are closed when dropped, and never replaced.**  In every reachable state an exit socket that has
     been popped from `exit_sockets` has no open transport, and no exit socket was ever overwritten in the table
     (which would leak its transports). -/
 theorem exit_closed_when_removed (c : Cfg) (hp : 0 < c.period) (start : Nat) (evs : List (Nat × Ev)) :
@@ -77,16 +84,60 @@ theorem join_limit (c : Cfg) (s : Node) (id peer : Nat) (hfull : c.maxJoined ≤
 /-- the same for the whole stimulus "a cell carrying a create arrives" (whatever its flags and wherever it is routed) -/
 theorem join_limit_cell (c : Cfg) (s : Node) (id peer : Nat) (early plain ok : Bool)
     (hfull : c.maxJoined ≤ s.relays.count + s.exits.count) :
-    (s.step c (.cell id early plain ok (.create peer))).exits = s.exits := by
-  show (s.onCell c id early plain ok (.create peer)).exits = s.exits
+    (s.step c (.cell id early plain ok (.create peer))).exits = s.exits ∧
+    (s.step c (.cell id early plain ok (.create peer))).created = s.created := by
+  show (s.onCell c id early plain ok (.create peer)).exits = s.exits ∧
+       (s.onCell c id early plain ok (.create peer)).created = s.created
   unfold Node.onCell
   split
-  · simp only
-    split <;> rfl
+  · split <;> exact ⟨rfl, rfl⟩
   · simp only
     split
-    · rfl
-    · exact (join_limit c s id peer hfull).1
+    · exact ⟨rfl, rfl⟩
+    · exact ⟨(join_limit c s id peer hfull).1, (join_limit c s id peer hfull).2.2.1⟩
+
+/-- **Teardown by the destroy message, relay.**  A destroy for circuit id `id` signed by the peer of the opposite
+    route makes the relay (i) start the removal of BOTH routes — every live entry under `id` and under the paired id
+    has a removal pending that ends at most `remove_tunnel_delay` later — and (ii) pass the destroy on to the next hop
+    under the paired id (unless the legacy reason code 0 was used). -/
+theorem destroy_tears_down_relay (c : Cfg) (s : Node) (id peer : Nat) (fwd : Bool) (nr pr : Entry)
+    (hn : s.relays.get id = some nr) (hp : s.relays.get nr.other = some pr) (hpeer : pr.peer = peer) :
+    KeyPend c s.now id (s.onDestroy c id peer fwd).relays ∧
+    KeyPend c s.now nr.other (s.onDestroy c id peer fwd).relays ∧
+    (s.onDestroy c id peer fwd).outs = s.outs ++ (if fwd then [Out.destroy nr.peer nr.other] else []) := by
+  unfold Node.onDestroy
+  simp only [hn, hp, hpeer, beq_self_eq_true, if_true]
+  exact ⟨(KeyPend.modify_self c s.now id false s.relays).modify_other nr.other false,
+         KeyPend.modify_self c s.now nr.other false _, trivial⟩
+
+/-- **Teardown by the destroy message, exit.**  A destroy from the previous hop starts the removal of the exit socket. -/
+theorem destroy_tears_down_exit (c : Cfg) (s : Node) (id peer : Nat) (fwd : Bool) (x : Entry)
+    (hr : s.relays.get id = none) (hx : s.exits.get id = some x) (hpeer : x.peer = peer) :
+    KeyPend c s.now id (s.onDestroy c id peer fwd).exits := by
+  unfold Node.onDestroy Node.onDestroyRest
+  simp only [hr, hx, hpeer, beq_self_eq_true, if_true]
+  exact KeyPend.modify_self c s.now id false s.exits
+
+/-- **Teardown by the destroy message, originator.**  A destroy from the first hop closes the circuit and starts its
+    removal. -/
+theorem destroy_tears_down_circuit (c : Cfg) (s : Node) (id peer : Nat) (fwd : Bool) (e : Entry)
+    (hr : s.relays.get id = none) (hx : s.exits.get id = none) (he : s.circuits.get id = some e)
+    (hpeer : e.peer = peer) : KeyPend c s.now id (s.onDestroy c id peer fwd).circuits := by
+  unfold Node.onDestroy Node.onDestroyRest
+  simp only [hr, hx, he, hpeer, beq_self_eq_true, if_true]
+  exact KeyPend.modifyC_self c s.now id s.circuits
+
+/-- **A pending removal fires**: once the clock reaches the end of the sleep, the next tick pops the entry (for an exit
+    socket the transports are closed according to the generated `closeOnPop`, which closes an enabled socket:
+    `closeOnPop_enabled`). -/
+theorem pending_removal_fires (c : Cfg) (n r : Nat) (sw : Bool) (e : Entry) (hr : e.rmAt = some r) (hle : r ≤ n) :
+    (tickRelay c n sw e).gone = true ∧ (tickCircuit c n sw e).gone = true ∧ (tickExit c n sw e).gone = true ∧
+    (tickExit c n sw e).opened = false := by
+  refine ⟨tickRelay_fires hr hle, tickCircuit_fires hr hle, (tickExit_fires hr hle).1, ?_⟩
+  rw [(tickExit_fires (c := c) (sw := sw) hr hle).2]
+  cases ho : e.opened with
+  | false => rfl
+  | true => simp [closeOnPop_enabled]
 
 /-- **Abandon ⇒ quiet** (`Emits`, `Out.ok` are defined in Lemmas.lean).  Whatever the stimulus, and in every tick, the
     output log only grows, and every message appended is: a destroy / drop / refusal record, a create (message id 2) or
@@ -201,9 +252,9 @@ example : ((reach tinyJoin 0 [(1, .cell 5 false true true (.create 1)), (1, .cel
 /-- non-vacuity of `exit_closed_when_removed`: an exit socket is enabled by a data cell, destroyed by its neighbour,
     and popped 5 ticks later with its transports closed -/
 example : ((reach demoCfg 0 [(1, .cell 5 false true true (.create 1)), (2, .cell 5 false false true (.data true)),
-                             (3, .destroy 5 1), (7, .outside 0)]).exits.map (fun p => (p.2.gone, p.2.opened)),
+                             (3, .destroy 5 1 true), (7, .outside 0)]).exits.map (fun p => (p.2.gone, p.2.opened)),
            (reach demoCfg 0 [(1, .cell 5 false true true (.create 1)), (2, .cell 5 false false true (.data true)),
-                             (3, .destroy 5 1), (8, .outside 0)]).exits.map (fun p => (p.2.gone, p.2.opened)))
+                             (3, .destroy 5 1 true), (8, .outside 0)]).exits.map (fun p => (p.2.gone, p.2.opened)))
           = ([(false, true)], [(true, false)]) := by decide +kernel
 
 /-- non-vacuity for the half-built facts: every created is lost; with 6 tries the originator retries at 10, 20, …, gives
@@ -236,13 +287,22 @@ example : ((reach demoCfg 0 (silentPeer ++ [(24, .outside 0)])).circuits.map (fu
 
 /-- the same when the socket is only enabled DURING its post-mortem window (destroy at 3, first data cell at 5, pop
     at 8): the close decision is taken on the entry that is popped, so the late transports are closed as well -/
-example : ((reach demoCfg 0 [(1, .cell 5 false true true (.create 1)), (3, .destroy 5 1),
+example : ((reach demoCfg 0 [(1, .cell 5 false true true (.create 1)), (3, .destroy 5 1 true),
                              (5, .cell 5 false false true (.data true)), (7, .outside 0)]).exits.map
               (fun p => (p.2.gone, p.2.opened)),
-           (reach demoCfg 0 [(1, .cell 5 false true true (.create 1)), (3, .destroy 5 1),
+           (reach demoCfg 0 [(1, .cell 5 false true true (.create 1)), (3, .destroy 5 1 true),
                              (5, .cell 5 false false true (.data true)), (8, .outside 0)]).exits.map
               (fun p => (p.2.gone, p.2.opened)))
           = ([(false, true)], [(true, false)]) := by decide +kernel
+
+/-- non-vacuity of `destroy_tears_down_relay`: the relay of `demoEvs` gets a destroy for id 5 from peer 1 at time 14:
+    the destroy is passed on to peer 3 under id 6, both routes are still there at 18 and gone at 19 -/
+example : ((reach demoCfg 0 (demoEvs ++ [(14, .destroy 5 1 true), (18, .outside 0)])).relays.count,
+           (reach demoCfg 0 (demoEvs ++ [(14, .destroy 5 1 true), (19, .outside 0)])).relays.count,
+           (reach demoCfg 0 (demoEvs ++ [(14, .destroy 5 1 true)])).outs.contains (Out.destroy 3 6),
+           (reach demoCfg 0 (demoEvs ++ [(14, .destroy 5 1 false)])).outs.contains (Out.destroy 3 6),
+           (reach demoCfg 0 (demoEvs ++ [(14, .destroy 5 2 true), (19, .outside 0)])).relays.count)
+          = (2, 0, true, false, 2) := by decide +kernel
 
 example : 0 < Gen.cfg.period := by decide
 
